@@ -124,8 +124,18 @@ def lambert(ctx, I, G):
                                                               for m in open_val.t for a, e_ in m)
         ctx.ob("C20.lambert", "factor is non-negative (a square root)", pos, f"s={short(open_val)}", loc)
         ck = repr(cond)
-        ax, ay = Abs(x).key(), Abs(y).key()
-        ctx.ob("C20.lambert", "mask tests both |x| and |y| against a tiny constant", str(ax) in str(cond) and str(ay) in str(cond), ck[:200], loc)
+        leaves = []
+
+        def walk(t):
+            if isinstance(t, tuple):
+                if len(t) >= 5 and t[0] == "G" and t[1] == "cmp":
+                    leaves.append(t[2:])
+                for u in t:
+                    walk(u)
+        walk(cond)
+        tiny = [lv for lv in leaves if lv[0] in ("Lt", "LtE") and isinstance(lv[2], E) and lv[2].is_const() and 0 < lv[2].cval() <= alg.Fr(1, 10**9)]
+        ctx.ob("C20.lambert", "mask tests both |x| and |y| against a tiny constant",
+               any(lv[1] == Abs(x) for lv in tiny) and any(lv[1] == Abs(y) for lv in tiny), ck[:200], loc)
     ctx.floor("C20.lambert", 5)
 
 
